@@ -99,10 +99,10 @@ struct Compiler {
 }
 
 impl Compiler {
-    fn new(max_group: usize) -> Compiler {
+    fn new(max_group: usize, options: RegexOptions) -> Compiler {
         Compiler {
             b: VMBuilder::new(max_group),
-            options: Default::default(),
+            options,
         }
     }
 
@@ -534,7 +534,13 @@ pub(crate) fn compile_inner(inner_re: &str, options: &RegexOptions) -> Result<Ra
 
 /// Compile the analyzed expressions into a program.
 pub fn compile(info: &Info<'_>) -> Result<Prog> {
-    let mut c = Compiler::new(info.end_group);
+    compile_with_options(info, &RegexOptions::default())
+}
+
+/// Compile the analyzed expressions into a program; `options` apply to every delegated
+/// sub-regex.
+pub(crate) fn compile_with_options(info: &Info<'_>, options: &RegexOptions) -> Result<Prog> {
+    let mut c = Compiler::new(info.end_group, options.clone());
     c.visit(info, false)?;
     c.b.add(Insn::End);
     Ok(c.b.build())
@@ -631,7 +637,7 @@ mod tests {
         };
         let info = analyze(&tree).unwrap();
 
-        let mut c = Compiler::new(0);
+        let mut c = Compiler::new(0, Default::default());
         // Force "hard" so that compiler doesn't just delegate
         c.visit(&info, true).unwrap();
         c.b.add(Insn::End);
